@@ -72,13 +72,14 @@ OwnClass(c) ==
       [] c \in {"inf_p", "inf_n"} -> "inf"
       [] OTHER -> c
 
-\* what the statement allows as the output of a leaf: set of <<output class, same>> pairs
+\* what the statement allows as the output class of a leaf
 Allowed(x) ==
-    IF InRange(x.cls) THEN {<<OwnClass(x.cls), TRUE>>}
-    ELSE IF BigIntegral(x.cls) THEN {<<"int_in", FALSE>>, <<"fint_in", FALSE>>}
-    ELSE {<<c, FALSE>> : c \in Safe \ {"bool", "str"}}            \* +-inf: anything finite or NaN
+    IF InRange(x.cls) THEN {OwnClass(x.cls)}
+    ELSE IF BigIntegral(x.cls) THEN {"int_in", "fint_in"}
+    ELSE Safe \ {"bool", "str"}                                  \* +-inf: anything finite or NaN
 
-LeafOK(x, ocls, same) == <<ocls, same>> \in Allowed(x)
+\* an input already in range must moreover come back equal
+LeafOK(x, ocls, same) == ocls \in Allowed(x) /\ (InRange(x.cls) => same)
 
 \* the code as found: only instances of int / float are looked at
 Handled(x) == x.dt \in {"py", "f64"}
@@ -141,11 +142,13 @@ Spec == Init /\ [][Next]_vars
 (* Properties of the specification itself over the whole enumerated domain  *)
 N == Len(leaves)
 \* whatever the statement allows is JSON-safe, and something is always allowed
-S_AllowedIsSafe == \A i \in 1..N : Allowed(leaves[i]) # {} /\ \A a \in Allowed(leaves[i]) : a[1] \in Safe
+S_AllowedIsSafe == \A i \in 1..N : Allowed(leaves[i]) # {} /\ Allowed(leaves[i]) \subseteq Safe
 \* values already in range: exactly one admissible outcome, the value itself
-S_InRangeFixed == \A i \in 1..N : InRange(leaves[i].cls) => Allowed(leaves[i]) = {<<OwnClass(leaves[i].cls), TRUE>>}
+S_InRangeFixed == \A i \in 1..N : InRange(leaves[i].cls) =>
+                      /\ Allowed(leaves[i]) = {OwnClass(leaves[i].cls)}
+                      /\ ~LeafOK(leaves[i], OwnClass(leaves[i].cls), FALSE)
 \* a value that is not in range cannot be returned unchanged
-S_OutOfRangeChanges == \A i \in 1..N : ~InRange(leaves[i].cls) => <<OwnClass(leaves[i].cls), TRUE>> \notin Allowed(leaves[i])
+S_OutOfRangeChanges == \A i \in 1..N : ~InRange(leaves[i].cls) => OwnClass(leaves[i].cls) \notin Allowed(leaves[i])
 \* the as-found code departs from the statement exactly at the known-finding signatures
 S_AsFoundOnlyKnown ==
     \A i \in 1..N : LET x == leaves[i] o == AsFoundOut(x)
